@@ -102,16 +102,23 @@ Section WithHash.
       valid coin set ([capok], decided by the SDK) *)
   Definition msg_ok (c : Z) (capok : bool) : bool := (0 <=? c) && capok.
 
-  (** Keeper.RequestRandom: [destHeight := currentHeight + int64(blockInterval)], stored under
-      [uint64(destHeight)]: together [(h + n) mod 2^64].  [svc] is what Keeper.RequestService
+  (** Keeper.RequestRandom: [destHeight := currentHeight + int64(blockInterval)], rejected if it
+      wraps (see [interval_ok]), stored under [uint64(destHeight)]: together [(h + n) mod 2^64].  [svc] is what Keeper.RequestService
       returned for an oracle request ([None] = error). *)
   Definition due_key (h n : Z) : Z := (h + n) mod two64.
+
+  (** the check added by "fix: random: reject a block interval whose destination height wraps
+      below the current height": [int64(blockInterval) < 0 || destHeight < currentHeight] is an
+      error; for [0 <= n < 2^64] and [1 <= h < 2^63] the request passes iff [n < 2^63] and
+      [h + n < 2^63] (no int64 wrap) *)
+  Definition interval_ok (h n : Z) : bool := (n <? two63) && (h + n <? two63).
 
   Definition request_random (s : state) (c n : Z) (orc : bool) (txh : Z) (svc : option Z)
     : option state :=
     let h := height s in
     let enq (r : request) :=
       mkState h (time s) (apph s) (set (due_key h n, req_id r) r (queue s)) (results s) (oracle s) in
+    if negb (interval_ok h n) then None else
     if orc then
       match svc with
       | None => None
